@@ -67,6 +67,8 @@ StEnc(kind, m) ==
 \* value constraints of the protocol documents (the parse-back clause is claimed for these; the layout clause always)
 StConformant(kind, m) ==
   CASE kind = "tpkt"            -> m.version = 3
+    \* the remote session id exists on the wire exactly when packets are acknowledged
+    [] kind = "openvpn"         -> m.has_remote = (m.acks # <<>>)
     [] kind = "mysql_handshake" -> Len(m.auth_plugin_data) = 8 /\ (~m.plugin_auth \/ Len(m.auth_plugin_data_2) >= 13) /\ (m.plugin_auth \/ m.auth_plugin_data_2 = <<>>)
                                    /\ (\A i \in 1..Len(m.server_version) : m.server_version[i] # 0) /\ (\A i \in 1..Len(m.auth_plugin_name) : m.auth_plugin_name[i] # 0)
     [] kind = "cotp"            -> m.class_option = 0
